@@ -52,6 +52,7 @@ type Options struct {
 	SchedBudget    int
 	BoundIsViolation bool // exceeding MaxSteps is a termination-obligation failure
 	RaceMonitor      bool // lockset monitor on maps shared between goroutines
+	RandBudget       int  // math/rand draws that may deviate from choice 0 per path
 }
 
 type decision struct {
@@ -165,6 +166,8 @@ type interpreter struct {
 	funcs   map[*ssa.Function]struct{}
 	mapOrderBudget int
 	schedBudget    int
+	randBudget     int
+	randDraws      int
 	symbolicBranches int
 	inconcl []string
 
@@ -632,7 +635,7 @@ func (r *Run) runPath(s *Solver, pkg *ssa.Package, fn *ssa.Function, item workIt
 		prog: r.prog.Prog, P: r.prog, globals: map[*ssa.Global]*value{}, opts: r.cfg.Opts, run: r, solver: s,
 		prefix: item.prefix, varKind: map[string]types.BasicKind{}, ndVals: map[string]string{},
 		tags: map[string]string{}, reached: map[string]bool{}, funcs: map[*ssa.Function]struct{}{},
-		mapOrderBudget: r.cfg.Opts.MapOrderBudget, schedBudget: r.cfg.Opts.SchedBudget,
+		mapOrderBudget: r.cfg.Opts.MapOrderBudget, schedBudget: r.cfg.Opts.SchedBudget, randBudget: r.cfg.Opts.RandBudget,
 		finished: make(chan struct{}, 1), locks: map[*value]*lockState{}, wgs: map[*value]*wgState{},
 		natives: map[*value]interface{}{},
 	}
